@@ -1390,19 +1390,28 @@ def r_supersede(ctx) -> RuleResult:
         pe = PathEval(callable_funcs)
         pe.record_classes = record_classes(ctx, pf.module)
         env = copy.deepcopy(consts)
-        others = [p_ for p_ in params_of(fn) if p_ not in scanned]
+        # the parameter(s) the scanned lines come from: the scanned name itself, or what a local such as
+        # `remaining = iter(lines)` / `lines[k:]` is made from
+        scan_params = {p_ for p_ in params_of(fn) if p_ in scanned}
+        for nm in scanned - scan_params:
+            d_ = single_def(fn, nm)
+            src_ = [p_ for p_ in params_of(fn) if d_ is not None and p_ in names_in(d_)]
+            if len(src_) == 1:
+                scan_params.add(src_[0])
+        others = [p_ for p_ in params_of(fn) if p_ not in scan_params]
         if atoms is not None and len(others) != 1:
             return None, ["the property-block function takes more than the lines and the atom table"]
         block_ = (list(smp) if isinstance(smp, (list, tuple)) else [smp]) + ["M  END"]
         for p_ in params_of(fn):
-            env[p_] = list(block_) if p_ in scanned else (copy.deepcopy(atoms) if atoms is not None else UNKNOWN)
+            env[p_] = list(block_) if p_ in scan_params else (copy.deepcopy(atoms) if atoms is not None else UNKNOWN)
         # what precedes the scan works on the file as a whole (unknown here); the scan itself sees the sample block
         states, lefts = pe.block(fn.body[:i0], [PState(env)])
         if lefts and not states:
             return None, pe.gaps or ["the statements in front of the scan leave the function"]
         for st_ in states:
             for nm in scanned:
-                st_.env[nm] = list(block_)
+                if nm in scan_params or isinstance(st_.env.get(nm, UNKNOWN), type(UNKNOWN)):
+                    st_.env[nm] = list(block_)
         pe.gaps = []
         falls, lefts2 = pe.block(fn.body[i0:], states)
         ends = [st_ for st_ in falls] + [st_ for st_, how, _v in lefts2 if how == "return"]
@@ -1485,6 +1494,12 @@ def r_supersede(ctx) -> RuleResult:
         (["M  CHG  1   1   0"], {0: {chg_k: 1}, 1: {}}, {0: {}, 1: {}}, "an explicit 0 is no entry (and the line still supersedes)"),
         (["M  CHG  1   2   1", "M  ISO  1   1  13"], {0: {rad_k: 2}, 1: {}}, {0: {mass_k: 13}, 1: {chg_k: 1}}, "a charge line supersedes the charge codes also when an isotope line follows it"),
         (["M  ISO  1   1  13", "M  RAD  1   2   2"], {0: {chg_k: 1}, 1: {}}, {0: {mass_k: 13}, 1: {rad_k: 2}}, "a radical line supersedes the charge codes also when an isotope line precedes it"),
+        # lines of other properties the format defines stand between / before the read ones and change nothing; an atom
+        # value (`V  aaa text`) is one line, an atom alias and a group abbreviation (`A  aaa`, `G  aaappp`) are followed by one line of text
+        (["V    2 carbonyl oxygen", "M  ISO  1   1  13"], {0: {}, 1: {}}, {0: {mass_k: 13}, 1: {}}, "an atom value line (one line by the format) does not hide the isotope line after it"),
+        (["M  ISO  1   1  13", "V    1 0.731", "M  RAD  1   2   2"], {0: {}, 1: {}}, {0: {mass_k: 13}, 1: {rad_k: 2}}, "an atom value line between two read lines changes nothing"),
+        (["M  STY  1   1 SUP", "M  SAL   1  2   1   2", "M  RAD  1   2   2"], {0: {}, 1: {}}, {0: {}, 1: {rad_k: 2}}, "lines of other M properties before the radical line change nothing"),
+        (["G    1   2", "Ph", "M  CHG  1   1  -1"], {0: {}, 1: {}}, {0: {chg_k: -1}, 1: {}}, "a group abbreviation (two lines) before the charge line changes nothing"),
     ]
     n_followed = 0
     for lines_, atoms_in, want_, what_ in cases:
@@ -1495,6 +1510,7 @@ def r_supersede(ctx) -> RuleResult:
                              f"following the well-formed property block {lines_ + ['M  END']} ends in a raise on every way through: a file the format allows is rejected", line=fn.lineno))
             break
         if tables is None or gaps or not all(isinstance(t_, dict) for t_ in tables):
+            res.inst(pf.fq, f"{what_}: {lines_}", "ok", detail="not followed by the sample evaluator" + (f": {gaps[0]}" if gaps else ""))
             continue
         n_followed += 1
         wrong = [t_ for t_ in tables if t_ != want_]
@@ -2375,7 +2391,13 @@ def _check_parser_validation(ctx, res: RuleResult):
                 complete = {a.id for a in vargs if isinstance(a, ast.Name)} >= set(tvars)
             elif isinstance(st.target, ast.Name):
                 subs = {try_const(ctx, f, a.slice) for a in vargs if isinstance(a, ast.Subscript) and isinstance(a.value, ast.Name) and a.value.id == st.target.id}
+                # `a, b = bond` in the body: the two ends under names of their own
+                ends_ = next(([x.id for x in s_.targets[0].elts] for s_ in st.body if isinstance(s_, ast.Assign) and len(s_.targets) == 1 and isinstance(s_.targets[0], (ast.Tuple, ast.List))
+                              and len(s_.targets[0].elts) == 2 and all(isinstance(x, ast.Name) for x in s_.targets[0].elts)
+                              and isinstance(s_.value, ast.Name) and s_.value.id == st.target.id), None)
                 if subs >= {0, 1}:
+                    complete = True
+                elif ends_ is not None and {a.id for a in vargs if isinstance(a, ast.Name)} >= set(ends_):
                     complete = True
                 elif any(isinstance(n_.iter, ast.Name) and n_.iter.id == st.target.id and isinstance(n_.target, ast.Name) and
                          any(isinstance(a2, ast.Name) and a2.id == n_.target.id for a2 in [validated_arg(s2.value) for s2 in n_.body if isinstance(s2, ast.Expr)] if a2 is not None)
@@ -2508,8 +2530,309 @@ def _check_parser_validation(ctx, res: RuleResult):
             if not any(F in str(p[2]) for p in problems):
                 problems.append((tg, flat[build_pos][0], "a graph can be returned without the bond endpoints / attribute indices having been checked against the atoms of the formula: "
                                  f"a string with a dangling index is accepted (or silently altered) instead of being rejected (no validation of {F})"))
+    # "no validation seen" is the absence of a form this rule reads, not a construct: it stands only when following the
+    # listener on sample strings with a dangling index shows a graph handed back (R-LISTENSAMPLE); else there is no verdict
+    absent = [p_ for p_ in problems if p_ not in [sp[2] for sp in sub_problems]]
+    if absent:
+        from ..check import run_rules
+        ls = run_rules(ctx, ["R-LISTENSAMPLE"])[0]
+        if not ls.findings:
+            why = "sample strings with a dangling index are rejected on every path" if not ls.error and (ls.counts or {}).get("samples") else "the listener could not be followed on sample strings"
+            raise AnalysisError(f"R-ORDERING: {absent[0][2]} -- in the forms this rule reads; {why}")
     for f, node, msg in problems:
         res.fail(Finding("R-ORDERING", f.module.rel, f.qualname, norm(node), msg, line=getattr(node, "lineno", None)))
+
+
+# --------------------------------------------------------------------------- R-FILESAMPLE
+
+
+def _file_samples(SYM, CHG_, RAD_, MASS_, BT):
+    """(format, what, lines, expected atoms in file order [(symbol, chg, rad, mass, (x, y, z))], expected bonds {frozenset(positions): type})
+    -- whole connection tables the CTfile format allows, with what they state"""
+    head3 = ["", "  sample", "", "  0  0  0     0  0            999 V3000", "M  V30 BEGIN CTAB"]
+
+    def v3(atoms, bonds, counts=None):
+        pre = lambda x: [("" if part.startswith("M  V30 ") else "M  V30 ") + part for part in x.split("\n")]  # noqa: E731   (a continued line is two physical lines)
+        return head3 + [f"M  V30 COUNTS {counts or f'{len(atoms)} {len(bonds)} 0 0 0'}", "M  V30 BEGIN ATOM"] + [l_ for a in atoms for l_ in pre(a)] + ["M  V30 END ATOM"] + \
+            (["M  V30 BEGIN BOND"] + [l_ for b in bonds for l_ in pre(b)] + ["M  V30 END BOND"] if bonds else []) + ["M  V30 END CTAB", "M  END"]
+
+    def a2(x, y, z, sym, ccc=0):
+        return f"{x:10.4f}{y:10.4f}{z:10.4f} {sym:<3} 0{ccc:3d}  0  0  0  0  0  0  0  0  0  0"
+
+    def b2(a, b, t):
+        return f"{a:3d}{b:3d}{t:3d}  0  0  0  0"
+
+    def v2(atoms, bonds, props, lists=()):
+        return ["", "  sample", "", f"{len(atoms):3d}{len(bonds):3d}{len(lists):3d}  0  0  0  0  0  0  0999 V2000"] + list(atoms) + list(bonds) + list(lists) + list(props) + ["M  END"]
+    C, O, D = ("C", 0, 0, 0, (0.0, 0.0, 0.0)), ("O", -1, 0, 0, (1.4, 0.0, 0.0)), ("H", 0, 0, 2, (-0.5, 0.9, 0.0))
+    out = []
+    out.append(("V3000", "atoms numbered 1, 2, 3", v3(["1 C 0 0 0 0", "2 O 1.4 0 0 0 CHG=-1", "3 D -0.5 0.9 0 0"], ["1 1 1 2", "2 2 1 3"]),
+                [C, O, D], {frozenset((0, 1)): 1, frozenset((0, 2)): 2}))
+    out.append(("V3000", "the same atom lines numbered 7, 2, 40 (any unique numbers are allowed)", v3(["7 C 0 0 0 0", "2 O 1.4 0 0 0 CHG=-1", "40 D -0.5 0.9 0 0"], ["1 1 7 2", "2 2 7 40"]),
+                [C, O, D], {frozenset((0, 1)): 1, frozenset((0, 2)): 2}))
+    out.append(("V3000", "properties in another order, runs of blanks, other keywords of the format, explicit defaults, a continued line",
+                v3(["1 C 0 0 0 0  RAD=2   MASS=13 CFG=1", "2 N 1.5 0 0 0 VAL=3 CHG=1 HCOUNT=1", "3 T 0 1 0 0 CHG=0 RAD=0", "4 Cl 2.5 1 0 -\nM  V30 0 MASS=37 CHG=-1"],
+                   ["1 1 1 2 CFG=1", "2 1 1 3", "3 1 2 -\nM  V30 4"], counts="4 3 0 0 0 REGNO=17"),
+                [("C", 0, 2, 13, (0.0, 0.0, 0.0)), ("N", 1, 0, 0, (1.5, 0.0, 0.0)), ("H", 0, 0, 3, (0.0, 1.0, 0.0)), ("Cl", -1, 0, 37, (2.5, 1.0, 0.0))],
+                {frozenset((0, 1)): 1, frozenset((0, 2)): 1, frozenset((1, 3)): 1}))
+    out.append(("V3000", "a bond to a star atom with three listed endpoints",
+                v3(["1 C 0 0 0 0", "2 C 1 0 0 0", "3 C 2 0 0 0", "4 * 1 1 0 0", "5 Fe 1 2 0 0"], ["1 1 1 2", "2 2 2 3", "3 9 5 4 ENDPTS=(3 1 2 3) ATTACH=ALL"]),
+                [("C", 0, 0, 0, (0.0, 0.0, 0.0)), ("C", 0, 0, 0, (1.0, 0.0, 0.0)), ("C", 0, 0, 0, (2.0, 0.0, 0.0)), ("Fe", 0, 0, 0, (1.0, 2.0, 0.0))],
+                {frozenset((0, 1)): 1, frozenset((1, 2)): 2, frozenset((3, 0)): 9, frozenset((3, 1)): 9, frozenset((3, 2)): 9}))
+    out.append(("V3000", "one atom, no bond block", v3(["1 He 0 0 0 0 MASS=3"], []), [("He", 0, 0, 3, (0.0, 0.0, 0.0))], {}))
+    out.append(("V2000", "charge code, D symbol, an isotope line", v2([a2(0, 0, 0, "C"), a2(1.4, 0, 0, "O", 5), a2(-0.5, 0.9, 0, "D")], [b2(1, 2, 1), b2(1, 3, 2)], ["M  ISO  1   1  13"]),
+                [("C", 0, 0, 13, (0.0, 0.0, 0.0)), O, D], {frozenset((0, 1)): 1, frozenset((0, 2)): 2}))
+    out.append(("V2000", "a charge line supersedes the charge codes; a radical line; an atom list and another property in between",
+                v2([a2(0, 0, 0, "N", 3), a2(1, 0, 0, "O", 5), a2(2, 0, 0, "C"), a2(3, 0, 0, "T")], [b2(1, 2, 1), b2(2, 3, 2), b2(3, 4, 1)],
+                   ["M  CHG  1   2  -1", "M  STY  1   1 SUP", "M  RAD  1   3   2"], lists=["  3 F    2   8   7"]),
+                [("N", 0, 0, 0, (0.0, 0.0, 0.0)), ("O", -1, 0, 0, (1.0, 0.0, 0.0)), ("C", 0, 2, 0, (2.0, 0.0, 0.0)), ("H", 0, 0, 3, (3.0, 0.0, 0.0))],
+                {frozenset((0, 1)): 1, frozenset((1, 2)): 2, frozenset((2, 3)): 1}))
+    out.append(("V2000", "one atom, no bonds, no property lines", v2([a2(0, 0, 0, "He")], [], []), [("He", 0, 0, 0, (0.0, 0.0, 0.0))], {}))
+    return out
+
+
+def _file_sample_rule(ctx, rid: str, fmt: str) -> RuleResult:
+    res = RuleResult(rid, f"{fmt} reader, on sample connection tables: one atom record per (non-star) atom line, in file order, with the stated element, charge, radical, mass and coordinates; "
+                          "one bond per stated bond (per listed endpoint of a star bond) between the stated atoms with the stated type")
+    from ..concrete import PState
+    from .common import sample_evaluator
+    const = lambda n: ctx.repo.const("tucan.graph_attributes", n)  # noqa: E731
+    SYM, CHG_, RAD_, MASS_, BT, X_, Y_, Z_ = (const(n) for n in ("ELEMENT_SYMBOL", "CHG", "RAD", "MASS", "BOND_TYPE", "X_COORD", "Y_COORD", "Z_COORD"))
+    ent = reader_entries(ctx)[fmt]
+    ps = params_of(ent.node)
+    if len(ps) != 1:
+        res.inst(ent.fq, "sample files", "ok", detail="not evaluated: the reader's entry takes more than the lines")
+        res.counts = {"samples": 0}
+        return res
+    pe, env = sample_evaluator(ctx, ent)
+    n = 0
+    for f_, what, lines, want_atoms, want_bonds in _file_samples(SYM, CHG_, RAD_, MASS_, BT):
+        if f_ != fmt:
+            continue
+        e = dict(env)
+        e[ps[0]] = list(lines)
+        del pe.gaps[:]
+        falls, lefts = pe.block(ent.node.body, [PState(e)])
+        hows = {how for _s, how, _v in lefts} | ({"falls"} if falls else set())
+        gaps = list(pe.gaps)
+        if gaps or not hows or "falls" in hows:
+            res.inst(ent.fq, f"sample: {what}", "ok", detail="not followed by the sample evaluator" + (f": {gaps[0]}" if gaps else ""))
+            continue
+        n += 1
+        if hows == {"raise"}:
+            res.inst(ent.fq, f"sample: {what}", "fail", detail="every path ends in an exception")
+            res.fail(Finding(rid, ent.module.rel, ent.qualname, f"sample: {what}", f"a connection table the format allows ({what}) is rejected: following the reader on it ends in an exception on every path",
+                             line=ent.node.lineno, extra={"lines": lines}))
+            continue
+        if "raise" in hows:
+            res.inst(ent.fq, f"sample: {what}", "ok", detail=f"paths end in {sorted(hows)}")
+            continue
+        problems = []
+        for _s, how, v in lefts:
+            if not (isinstance(v, tuple) and len(v) == 2 and isinstance(v[0], dict) and isinstance(v[1], dict)):
+                problems = None
+                break
+            atoms, bonds = v
+            got_atoms = []
+            for d in atoms.values():
+                if not isinstance(d, dict):
+                    problems = None
+                    break
+                try:
+                    got_atoms.append((d.get(SYM), d.get(CHG_, 0), d.get(RAD_, 0), d.get(MASS_, 0), (float(d.get(X_, 0)), float(d.get(Y_, 0)), float(d.get(Z_, 0)))))
+                except (TypeError, ValueError):
+                    problems = None
+                    break
+            if problems is None:
+                break
+            if got_atoms != want_atoms:
+                k = next((i for i, (a_, b_) in enumerate(zip(got_atoms, want_atoms)) if a_ != b_), min(len(got_atoms), len(want_atoms)))
+                problems.append(f"the atom table holds {len(got_atoms)} atoms, the file states {len(want_atoms)}" if len(got_atoms) != len(want_atoms) else
+                                f"atom record {k + 1} (in the order the table is filled) is {got_atoms[k]}, atom line {k + 1} states {want_atoms[k]} (element, charge, radical, mass, coordinates)")
+                continue
+            posn = {key: i for i, key in enumerate(atoms)}
+            got_bonds = {}
+            bad_key = False
+            for key, d in bonds.items():
+                if not (isinstance(key, tuple) and len(key) == 2 and key[0] in posn and key[1] in posn and isinstance(d, dict)):
+                    bad_key = True
+                    break
+                got_bonds[frozenset((posn[key[0]], posn[key[1]]))] = d.get(BT)
+            if bad_key:
+                problems.append(f"a bond of the bond table {sorted(bonds, key=repr)} does not name two atoms of the atom table {list(atoms)}")
+                continue
+            if got_bonds != want_bonds:
+                show = lambda m_: sorted((tuple(sorted(k_)), t_) for k_, t_ in m_.items())  # noqa: E731
+                problems.append(f"the bonds (between atom lines, counted from 0, with type) are {show(got_bonds)}, the file states {show(want_bonds)}")
+        if problems is None:
+            res.inst(ent.fq, f"sample: {what}", "ok", detail="the reader's result is not a pair of tables: not judged")
+            n -= 1
+            continue
+        bad = bool(problems) and len(problems) == len(lefts)
+        res.inst(ent.fq, f"sample: {what}", "fail" if bad else "ok", detail=problems[0] if bad else "")
+        if bad:
+            res.fail(Finding(rid, ent.module.rel, ent.qualname, f"sample: {what}", f"following the {fmt} reader on a sample connection table ({what}): {problems[0]}",
+                             line=ent.node.lineno, extra={"lines": lines}))
+    res.counts = {"samples": n}
+    res.trusted = ["CTfile formats 2020: the sample connection tables and what they state (rules/readers.py _file_samples)", "the sample evaluator (concrete.py)"]
+    return res
+
+
+@rule("R-V3SAMPLE")
+def r_v3sample(ctx) -> RuleResult:
+    return _file_sample_rule(ctx, "R-V3SAMPLE", "V3000")
+
+
+@rule("R-V2SAMPLE")
+def r_v2sample(ctx) -> RuleResult:
+    return _file_sample_rule(ctx, "R-V2SAMPLE", "V2000")
+
+
+# --------------------------------------------------------------------------- R-LISTENSAMPLE
+
+
+def listener_evaluator(ctx):
+    """(sample evaluator, its environment, listener class, to_graph, {'atoms' | 'bond' | 'attr': adder method}, first attribute
+    keyword) for the TUCAN parser's listener, or a string saying why its samples cannot be put in through adder methods"""
+    from ..concrete import PState, SampleNx
+    from .common import sample_evaluator
+    repo = ctx.repo
+    par = repo.module("tucan.parser.parser")
+    lis = None
+    for ci in par.classes.values():
+        if any(b.endswith("tucanListener") for b in repo.base_names(ci)):
+            lis = ci
+    if lis is None:
+        raise AnalysisError("listener implementation vanished")
+    tg = repo.mro_method(lis, "to_graph")
+    if tg is None:
+        raise AnalysisError("listener.to_graph vanished")
+
+    # the adder methods, found through the handlers: the method a handler (or what it calls) hands two / three / (text, n) values
+    def self_calls(m, depth=0):
+        out = []
+        for x in own_walk(m.node):
+            if isinstance(x, ast.Call) and isinstance(x.func, ast.Attribute) and isinstance(x.func.value, ast.Name) and x.func.value.id == "self":
+                t_ = repo.mro_method(lis, x.func.attr)
+                if t_ is not None and t_.cls is lis:
+                    out.append((x, t_))
+                    if depth < 2:
+                        out += self_calls(t_, depth + 1)
+        return out
+    adders = {}
+    for name, m in lis.methods.items():
+        if not name.startswith("enter"):
+            continue
+        low = name.lower()
+        kind = "bond" if "tuple" in low else ("attr" if "property" in low else ("atoms" if "carbon" in low or "formula" in low else None))
+        if kind is None:
+            continue
+        want = {"bond": 2, "attr": 3, "atoms": 2}[kind]
+        for call, t_ in self_calls(m):
+            if len(call.args) == want and not call.keywords and len(params_of(t_.node)) == want + 1 \
+                    and not any(isinstance(z, ast.Name) and "ctx" in z.id for a_ in call.args for z in ast.walk(a_)):
+                adders.setdefault(kind, t_)
+    if set(adders) != {"bond", "attr", "atoms"} or len({a.fq for a in adders.values()}) != 3:
+        return f"the methods that store atoms / bonds / attributes were not identified (found {sorted(adders)})"
+    # the samples are put in through the adder methods: what the handlers do before they call them is not seen.  A handler
+    # side that can raise by itself (an index checked the moment it is read) is outside what the samples can judge
+    adder_fqs = {a.fq for a in adders.values()}
+    for name, m in lis.methods.items():
+        if not name.startswith("enter"):
+            continue
+        for f_ in [m] + [t_ for _c, t_ in self_calls(m)]:
+            if f_.fq in adder_fqs:
+                continue
+            # a raise under a test that looks at what the listener already holds (self.<field>): an index checked when it is read
+            from .readers_guard import guarded_by_state
+            if guarded_by_state(f_.node):
+                return f"{f_.qualname} can reject what it reads, by what is already stored, before it is stored itself (the samples enter after that point)"
+    keys = repo.try_const(par, "_DESERIALIZER_NODE_ATTRIBUTE_MAPPING", None)
+    key0 = next(iter(keys)) if isinstance(keys, dict) and keys else "mass"
+    pe, env = sample_evaluator(ctx, tg, {"nx": SampleNx()})
+
+    def consts_of(f_):
+        out_ = {"nx": SampleNx()}
+        for nm in {x.id for x in ast.walk(f_.node) if isinstance(x, ast.Name)}:
+            if nm in params_of(f_.node):
+                continue
+            v = try_const(ctx, f_, ast.Name(nm, ast.Load()), default=None)
+            if v is not None:
+                out_[nm] = v
+        return out_
+    pe.instance_classes[lis.name] = {"fields": None, "class_attrs": {}}
+    for name, fi_ in lis.methods.items():
+        pe.calls[f"{lis.name}.{name}"] = (fi_.node, consts_of(fi_))
+    return pe, env, lis, tg, adders, (key0, list(keys) if isinstance(keys, dict) else [key0])
+
+
+@rule("R-LISTENSAMPLE")
+def r_listensample(ctx) -> RuleResult:
+    """sample semantics of the parser's listener: what its handlers store is fed to its own adder methods for a handful of
+    sample molecules, then to_graph is followed with the sample evaluator.  A sample with an index that names no atom of the
+    formula must end in an exception on every path; a sample inside the language must hand back a graph on some path.
+    Only a sample on which every path ends the wrong way is reported; what the evaluator cannot follow is skipped."""
+    res = RuleResult("R-LISTENSAMPLE", "TUCAN parser, on sample molecules: to_graph raises for every sample with a bond endpoint or attribute index beyond the atoms of the formula, and hands back a graph for the valid samples")
+    from ..concrete import PState
+    le = listener_evaluator(ctx)
+    if isinstance(le, str):
+        res.inst("tucan.parser.parser", "sample molecules", "ok", detail=f"not evaluated: {le}")
+        res.counts = {"samples": 0}
+        return res
+    pe, env, lis, tg, adders, (key0, _keys) = le
+    A, B, P = adders["atoms"].name, adders["bond"].name, adders["attr"].name
+    dangling = [
+        ("C2/(1-3)", [("C", 2)], [(1, 3)], []),
+        ("C2/(3-1)", [("C", 2)], [(3, 1)], []),
+        ("/(1-2)", [], [(1, 2)], []),
+        (f"//(1:{key0}=13)", [], [], [(1, 13)]),
+        (f"C//(2:{key0}=13)", [("C", 1)], [], [(2, 13)]),
+        (f"C2H/(1-2)(1-3)/(4:{key0}=2)", [("C", 2), ("H", 1)], [(1, 2), (1, 3)], [(4, 2)]),
+        ("H2/(1-2)(2-5)", [("H", 2)], [(1, 2), (2, 5)], []),
+    ]
+    valid = [
+        (f"C2/(1-2)/(2:{key0}=13)", [("C", 2)], [(1, 2)], [(2, 13)]),
+        ("He/", [("He", 1)], [], []),
+        ("CH4/(1-5)(2-5)(3-5)(4-5)", [("C", 1), ("H", 4)], [(1, 5), (2, 5), (3, 5), (4, 5)], []),
+    ]
+
+    def run(atoms, bonds, attrs):
+        src = [f"L = {lis.name}()"] + [f"L.{A}({s_!r}, {n_})" for s_, n_ in atoms] + [f"L.{B}({a_}, {b_})" for a_, b_ in bonds] + [f"L.{P}({i_}, {key0!r}, {v_})" for i_, v_ in attrs]
+        setup = ast.parse("\n".join(src)).body
+        del pe.gaps[:]
+        falls, lefts = pe.block(setup, [PState(dict(env))])
+        if lefts or len(falls) != 1 or pe.gaps:
+            return None          # the sample could not even be stored
+        falls, lefts = pe.block(ast.parse("g = L.to_graph()").body, falls)
+        hows = {how for _s, how, _v in lefts} | ({"return"} if falls else set())
+        return hows, list(pe.gaps)
+    n = 0
+    for text, atoms, bonds, attrs in dangling:
+        r_ = run(atoms, bonds, attrs)
+        if r_ is None:
+            continue
+        hows, gaps = r_
+        n += 1
+        bad = hows == {"return"} and not gaps
+        res.inst(tg.fq, f"sample {text!r} (an index names no atom)", "fail" if bad else "ok", detail=f"paths end in {sorted(hows)}" + (f"; not followed: {gaps[0]}" if gaps else ""))
+        if bad:
+            res.fail(Finding("R-LISTENSAMPLE", tg.module.rel, tg.qualname, f"sample {text}",
+                             f"for what the string {text!r} stores in the listener (an index that names no atom of the formula) to_graph hands back a graph on every path instead of "
+                             "raising: such a string is accepted", line=tg.node.lineno))
+    for text, atoms, bonds, attrs in valid:
+        r_ = run(atoms, bonds, attrs)
+        if r_ is None:
+            continue
+        hows, gaps = r_
+        n += 1
+        bad = hows == {"raise"} and not gaps
+        res.inst(tg.fq, f"sample {text!r} (inside the language)", "fail" if bad else "ok", detail=f"paths end in {sorted(hows)}" + (f"; not followed: {gaps[0]}" if gaps else ""))
+        if bad:
+            res.fail(Finding("R-LISTENSAMPLE", tg.module.rel, tg.qualname, f"sample {text}",
+                             f"for what the valid string {text!r} stores in the listener to_graph raises on every path: a molecule the grammar admits is rejected", line=tg.node.lineno))
+    res.counts = {"samples": n}
+    res.trusted = ["the sample evaluator's model of the listener object and of networkx graph construction (concrete.py)"]
+    return res
 
 
 # --------------------------------------------------------------------------- R-INDEXSPACE / R-GRAPHBUILD
@@ -2638,14 +2961,28 @@ def r_graphbuild(ctx) -> RuleResult:
         raise AnalysisError("graph_from_molecule signature changed")
     atoms, bonds_p = ps[0], ps[1]
 
+    # the graph may be put together by a helper that is handed both tables as they are: the construction is read there
+    bfn, batoms, bbonds = fn, atoms, bonds_p
+    if not any(isinstance(n, ast.Call) and isinstance(n.func, ast.Attribute) and n.func.attr in ("add_nodes_from", "add_node", "add_edges_from", "add_edge") for n in own_walk(fn)):
+        helpers = []
+        for n in own_walk(fn):
+            if isinstance(n, ast.Call) and [norm(a_) for a_ in n.args[:2]] == [atoms, bonds_p] and not n.keywords:
+                cs_ = ctx.cg.resolve_call(gfm, n, ctx.cg.local_types(gfm), set(ps))
+                if cs_.kind == "tucan" and len(params_of(cs_.target.node)) >= 2:
+                    helpers.append(cs_.target)
+        rebound = {t_.id for n in own_walk(fn) if isinstance(n, (ast.Assign, ast.AugAssign, ast.AnnAssign)) for t_ in ast.walk(n.targets[0] if isinstance(n, ast.Assign) else n.target)
+                   if isinstance(t_, ast.Name)} & {atoms, bonds_p}
+        if len(helpers) == 1 and not rebound:
+            bfn = helpers[0].node
+            batoms, bbonds = params_of(bfn)[0], params_of(bfn)[1]
     def numbering(e: ast.expr, depth=0) -> Optional[str]:
         """how labels are derived from the atom table: 'key' | 'insertion' | 'sorted' | None"""
         if depth > 5:
             return None
         if isinstance(e, ast.Name):
-            if e.id == atoms:
+            if e.id == batoms:
                 return "key"
-            d = single_def(fn, e.id)
+            d = single_def(bfn, e.id)
             return numbering(d, depth + 1) if d is not None else None
         if isinstance(e, ast.Call) and isinstance(e.func, ast.Name):
             if e.func.id in ("list", "tuple", "iter") and e.args:
@@ -2658,7 +2995,7 @@ def r_graphbuild(ctx) -> RuleResult:
                 return {"key": "insertion", "values": "insertion", "sorted": "sorted"}.get(inner, inner)
             if e.func.id == "range":
                 return "insertion"
-        if isinstance(e, ast.Call) and isinstance(e.func, ast.Attribute) and isinstance(e.func.value, ast.Name) and e.func.value.id == atoms:
+        if isinstance(e, ast.Call) and isinstance(e.func, ast.Attribute) and isinstance(e.func.value, ast.Name) and e.func.value.id == batoms:
             if e.func.attr in ("keys",):
                 return "key"
             if e.func.attr in ("items",):
@@ -2670,7 +3007,7 @@ def r_graphbuild(ctx) -> RuleResult:
         return None
 
     # neither table may be filtered (a bond or atom dropped because of its data changes the molecule)
-    for n in own_walk(fn):
+    for n in own_walk(bfn):
         comp = None
         if isinstance(n, (ast.Assign, ast.AnnAssign)) and isinstance(n.value, (ast.DictComp, ast.ListComp, ast.GeneratorExp, ast.SetComp)):
             comp = n.value
@@ -2680,13 +3017,13 @@ def r_graphbuild(ctx) -> RuleResult:
         if comp is not None:
             for g in comp.generators:
                 src = norm(g.iter)
-                if g.ifs and (atoms in src or bonds_p in src):
+                if g.ifs and (batoms in src or bbonds in src):
                     res.inst(gfm.fq, short(comp), "fail")
                     res.fail(Finding("R-GRAPHBUILD", gfm.module.rel, gfm.qualname, norm(comp),
-                                     f"{'bonds' if bonds_p in src else 'atoms'} are filtered by `{short(g.ifs[0], 50)}` before the graph is built: which {'pairs are bonded' if bonds_p in src else 'atoms exist'} depends on non-identity data",
+                                     f"{'bonds' if bbonds in src else 'atoms'} are filtered by `{short(g.ifs[0], 50)}` before the graph is built: which {'pairs are bonded' if bbonds in src else 'batoms exist'} depends on non-identity data",
                                      line=comp.lineno))
-    node_calls = [n for n in own_walk(fn) if isinstance(n, ast.Call) and isinstance(n.func, ast.Attribute) and n.func.attr in ("add_nodes_from", "add_node")]
-    edge_calls = [n for n in own_walk(fn) if isinstance(n, ast.Call) and isinstance(n.func, ast.Attribute) and n.func.attr in ("add_edges_from", "add_edge")]
+    node_calls = [n for n in own_walk(bfn) if isinstance(n, ast.Call) and isinstance(n.func, ast.Attribute) and n.func.attr in ("add_nodes_from", "add_node")]
+    edge_calls = [n for n in own_walk(bfn) if isinstance(n, ast.Call) and isinstance(n.func, ast.Attribute) and n.func.attr in ("add_edges_from", "add_edge")]
     if not node_calls or not edge_calls:
         raise AnalysisError("R-GRAPHBUILD: graph_from_molecule no longer adds nodes and edges explicitly")
     nspace = numbering(node_calls[0].args[0]) if node_calls[0].args else None
@@ -2696,12 +3033,12 @@ def r_graphbuild(ctx) -> RuleResult:
     maps = set()
     if earg is not None:
         for x in ast.walk(earg):
-            if isinstance(x, ast.Subscript) and isinstance(x.value, ast.Name) and x.value.id not in (atoms, bonds_p):
+            if isinstance(x, ast.Subscript) and isinstance(x.value, ast.Name) and x.value.id not in (batoms, bbonds):
                 maps.add(x.value.id)
         if maps:
             spaces = set()
             for mname in maps:
-                d = single_def(fn, mname)
+                d = single_def(bfn, mname)
                 spaces.add(numbering(d) if d is not None else None)
             espace = spaces.pop() if len(spaces) == 1 else None
         else:
@@ -2709,7 +3046,7 @@ def r_graphbuild(ctx) -> RuleResult:
             while isinstance(src, ast.Call) and isinstance(src.func, ast.Name) and src.func.id in ("list", "tuple") and src.args:
                 src = src.args[0]
             t = norm(src)
-            if t in (f"{bonds_p}.keys()", bonds_p, f"{bonds_p}.items()") or (isinstance(src, (ast.GeneratorExp, ast.ListComp)) and bonds_p in norm(src.generators[0].iter)):
+            if t in (f"{bbonds}.keys()", bbonds, f"{bbonds}.items()") or (isinstance(src, (ast.GeneratorExp, ast.ListComp)) and bbonds in norm(src.generators[0].iter)):
                 espace = "key"
     if nspace is None or espace is None:
         raise AnalysisError(f"R-GRAPHBUILD: cannot determine the label space of nodes ({nspace}) / bond endpoints ({espace})")
@@ -2717,22 +3054,22 @@ def r_graphbuild(ctx) -> RuleResult:
     res.inst(gfm.fq, f"node labels from `{short(node_calls[0], 60)}` ({nspace}); bond endpoints from `{short(edge_calls[0], 60)}` ({espace})", "ok" if ok else "fail")
     if not ok:
         res.fail(Finding("R-GRAPHBUILD", gfm.module.rel, gfm.qualname, norm(edge_calls[0]),
-                         f"atoms are numbered by {nspace} order of the atom table but bond endpoints by {espace} order: when the table is not in ascending key order the bonds attach to other atoms",
+                         f"batoms are numbered by {nspace} order of the atom table but bond endpoints by {espace} order: when the table is not in ascending key order the bonds attach to other batoms",
                          line=edge_calls[0].lineno))
     # attributes attached
-    has_nattr = any(isinstance(n, ast.Call) and norm(n.func).endswith("set_node_attributes") for n in own_walk(fn)) or nspace in ("values",) or \
-        any(atoms in norm(c.args[0]) and (".items()" in norm(c.args[0]) or ".values()" in norm(c.args[0])) for c in node_calls if c.args)
-    has_eattr = any(isinstance(n, ast.Call) and norm(n.func).endswith("set_edge_attributes") for n in own_walk(fn)) or \
+    has_nattr = any(isinstance(n, ast.Call) and norm(n.func).endswith("set_node_attributes") for n in own_walk(bfn)) or nspace in ("values",) or \
+        any(batoms in norm(c.args[0]) and (".items()" in norm(c.args[0]) or ".values()" in norm(c.args[0])) for c in node_calls if c.args)
+    has_eattr = any(isinstance(n, ast.Call) and norm(n.func).endswith("set_edge_attributes") for n in own_walk(bfn)) or \
         any(".items()" in norm(c.args[0]) for c in edge_calls if c.args) or \
         any(c.func.attr == "add_edge" and (any(k.arg is None for k in c.keywords) or len(c.args) > 2) for c in edge_calls)
     if not has_eattr:
         # positively without data: the bond table's keys only
-        bare = all(c.func.attr == "add_edges_from" and c.args and norm(c.args[0]) in (bonds_p, f"{bonds_p}.keys()", f"list({bonds_p})", f"list({bonds_p}.keys())") for c in edge_calls) \
+        bare = all(c.func.attr == "add_edges_from" and c.args and norm(c.args[0]) in (bbonds, f"{bbonds}.keys()", f"list({bbonds})", f"list({bbonds}.keys())") for c in edge_calls) \
             or all(c.func.attr == "add_edge" and len(c.args) == 2 and not c.keywords for c in edge_calls)
         if not bare:
             raise AnalysisError(f"R-GRAPHBUILD: cannot see whether `{short(edge_calls[0], 60)}` attaches the bond attributes")
     if not has_nattr:
-        bare_n = all(c.args and norm(c.args[0]) in (atoms, f"{atoms}.keys()", f"list({atoms})", f"list({atoms}.keys())") for c in node_calls)
+        bare_n = all(c.args and norm(c.args[0]) in (batoms, f"{batoms}.keys()", f"list({batoms})", f"list({batoms}.keys())") for c in node_calls)
         if not bare_n:
             raise AnalysisError(f"R-GRAPHBUILD: cannot see whether `{short(node_calls[0], 60)}` attaches the atom attributes")
     res.inst(gfm.fq, "atom and bond attributes are attached", "ok" if has_nattr and has_eattr else "fail")
